@@ -1,5 +1,6 @@
 import NiftyVerif.Core.Proto
 import NiftyVerif.Model.ExprIO
+import NiftyVerif.Model.Cplx
 open Lean NiftyVerif NiftyVerif.Proto NiftyVerif.Expr NiftyVerif.Gen.Ptw NiftyVerif.ExprIO
 
 /-!
@@ -13,6 +14,131 @@ open Lean NiftyVerif NiftyVerif.Proto NiftyVerif.Expr NiftyVerif.Gen.Ptw NiftyVe
       `metric[j]` = metric applied to the j-th input unit vector (flattened in key order as given / as in "dom").
 -/
 
+/-- exact mode (class E): rationals as "p/q" strings.  The transcendental vocabulary is not available over `Rat`:
+    the harness sends only trees whose point-wise functions are piecewise linear (abs, sign, unitstep, clip). -/
+instance : Transc Rat where
+  sqrt := fun _ => 0
+  exp := fun _ => 0
+  log := fun _ => 0
+  sin := fun _ => 0
+  cos := fun _ => 0
+  tan := fun _ => 0
+  sinh := fun _ => 0
+  cosh := fun _ => 0
+  tanh := fun _ => 0
+  arctan := fun _ => 0
+  pow := fun _ _ => 0
+  pi := 0
+  nan := 0
+
+instance : Conj Rat := ⟨fun x => x⟩
+
+def rationalFn (f : Fn) : Bool :=
+  match f with
+  | .abs | .absolute | .sign | .unitstep | .clip => true
+  | _ => false
+
+def rationalTree : Ex Rat → Bool
+  | .var _ _ => true
+  | .add a b => rationalTree a && rationalTree b
+  | .sub a b => rationalTree a && rationalTree b
+  | .mul a b => rationalTree a && rationalTree b
+  | .vdot a b => rationalTree a && rationalTree b
+  | .bil _ _ _ _ a b => rationalTree a && rationalTree b
+  | .chain f g => rationalTree f && rationalTree g
+  | .scale _ a => rationalTree a
+  | .addc _ _ a => rationalTree a
+  | .mulc _ a => rationalTree a
+  | .ptw f _ a => rationalFn f && rationalTree a
+  | .lin _ _ _ a => rationalTree a
+  | .sum a => rationalTree a
+  | .getKey _ a => rationalTree a
+  | .putKey _ a => rationalTree a
+  | .sqnorm a => rationalTree a
+  | .quad _ a => rationalTree a
+  | .gauss _ _ a => rationalTree a
+  | .varcov _ _ _ => false
+  | .const _ _ _ => true
+
+def jRatMat (m : List (List Rat)) : Json := Json.arr (m.map jRats).toArray
+
+def handleLinQ (j : Json) : Json :=
+  match (field? j "in").bind getDom?, (field? j "expr").bind (getExG getRat? (0 : Rat)), fBool? j "wm" with
+  | some din, some e, some wm =>
+    match (field? j "x").bind (envOfG getRat? (0 : Rat) din) with
+    | none => jErr "bad-env"
+    | some ρ =>
+      if !check e din then jErr "ill-formed" else
+      if !rationalTree e then jErr "not-rational" else
+      let dout := sortDom e.dom
+      let l := lin e ρ wm
+      let met := match l.metric with
+        | none => Json.null
+        | some M => jRatMat ((unitsG (0 : Rat) 1 din).map (fun h => flatG din (M h)))
+      jObj [("dom", jDom dout),
+            ("pval", jRats (flatG dout (eval e ρ))),
+            ("val", jRats (flatG dout l.val)),
+            ("jac", jRatMat ((unitsG (0 : Rat) 1 din).map (fun h => flatG dout (l.jac h)))),
+            ("adj", jRatMat ((unitsG (0 : Rat) 1 dout).map (fun y => flatG din (l.adj y)))),
+            ("metric", met)]
+  | _, _, _ => jErr "bad-args"
+
+/-! complex mode (class T): numbers as `[re_bits, im_bits]`; holomorphic nodes only -/
+
+def getCplx? (j : Json) : Option Cplx :=
+  match j with
+  | Json.arr a =>
+    match a.toList with
+    | [x, y] => do some ⟨← getFloat? x, ← getFloat? y⟩
+    | _ => none
+  | _ => none
+
+def jCplx (z : Cplx) : Json := Json.arr #[jFloat z.re, jFloat z.im]
+def jCplxs (l : List Cplx) : Json := Json.arr (l.map jCplx).toArray
+def jCplxMat (m : List (List Cplx)) : Json := Json.arr (m.map jCplxs).toArray
+
+def holoFn (f : Fn) : Bool :=
+  match f with
+  | .sin | .cos | .exp | .expm1 | .sinh | .cosh | .tanh | .sigmoid | .reciprocal | .sqrt | .log | .log10 | .log1p
+  | .power | .exponentiate | .tan | .arctan => true
+  | _ => false
+
+def holoTree : Ex Cplx → Bool
+  | .var _ _ => true
+  | .add a b => holoTree a && holoTree b
+  | .sub a b => holoTree a && holoTree b
+  | .mul a b => holoTree a && holoTree b
+  | .bil _ _ _ _ a b => holoTree a && holoTree b
+  | .chain f g => holoTree f && holoTree g
+  | .scale _ a => holoTree a
+  | .addc _ _ a => holoTree a
+  | .mulc _ a => holoTree a
+  | .ptw f _ a => holoFn f && holoTree a
+  | .lin _ _ _ a => holoTree a
+  | .sum a => holoTree a
+  | .getKey _ a => holoTree a
+  | .putKey _ a => holoTree a
+  | _ => false
+
+def handleLinC (j : Json) : Json :=
+  let z : Cplx := ⟨0.0, 0.0⟩
+  let o : Cplx := ⟨1.0, 0.0⟩
+  match (field? j "in").bind getDom?, (field? j "expr").bind (getExG getCplx? z) with
+  | some din, some e =>
+    match (field? j "x").bind (envOfG getCplx? z din) with
+    | none => jErr "bad-env"
+    | some ρ =>
+      if !check e din then jErr "ill-formed" else
+      if !holoTree e then jErr "not-holomorphic" else
+      let dout := sortDom e.dom
+      let l := lin e ρ false
+      jObj [("dom", jDom dout),
+            ("pval", jCplxs (flatG dout (eval e ρ))),
+            ("val", jCplxs (flatG dout l.val)),
+            ("jac", jCplxMat ((unitsG z o din).map (fun h => flatG dout (l.jac h)))),
+            ("adj", jCplxMat ((unitsG z o dout).map (fun y => flatG din (l.adj y))))]
+  | _, _ => jErr "bad-args"
+
 def handle (j : Json) : Json :=
   match fStr? j "op" with
   | some "ptw" =>
@@ -21,6 +147,15 @@ def handle (j : Json) : Json :=
       if p.length != f.arity then jErr "arity" else
       jObj [("val", jFloats (v.map (f.val p))), ("hval", jFloats (v.map (f.hval p))), ("der", jFloats (v.map (f.der p)))]
     | _, _, _ => jErr "bad-args"
+  | some "ptwc" =>
+    match (fStr? j "f").bind Fn.ofString, (field? j "p").bind (listOf? getCplx?), (field? j "v").bind (listOf? getCplx?) with
+    | some f, some p, some v =>
+      if p.length != f.arity then jErr "arity" else
+      if !holoFn f then jErr "not-holomorphic" else
+      jObj [("val", jCplxs (v.map (f.val p))), ("hval", jCplxs (v.map (f.hval p))), ("der", jCplxs (v.map (f.der p)))]
+    | _, _, _ => jErr "bad-args"
+  | some "linq" => handleLinQ j
+  | some "linc" => handleLinC j
   | some "lin" =>
     match (field? j "in").bind getDom?, (field? j "expr").bind getEx?, fBool? j "wm" with
     | some din, some e, some wm =>
